@@ -23,6 +23,7 @@ import time
 VERIF = '/verif'
 REPO = '/repo'
 WT = '/tmp/wt_confirm'
+import fcntl
 
 
 def sh(cmd, cwd=None, timeout=3600):
@@ -44,7 +45,11 @@ def main():
     names = re.findall(r'^\+\s*(?:pub\s+)?(?:async\s+)?fn\s+(\w+)\s*\(', open(demo).read(), re.M)
     tests = [n for n in names if True]
     meta['demo_tests'] = tests
-    # B. detection
+    global WT
+    WT = '/tmp/wt_confirm_' + sid.split('-')[0]
+    # B. detection (serialised across concurrent seed evaluations: /repo is patched only while this lock is held)
+    lockf = open('/tmp/seed_detect.flock', 'w')
+    fcntl.flock(lockf, fcntl.LOCK_EX)
     rc, out = sh('git -C %s status --porcelain' % REPO)
     assert out.strip() == '', '/repo is not clean'
     open('/tmp/verif_repo_patched.lock', 'w').write(sid)
@@ -64,6 +69,7 @@ def main():
             os.remove('/tmp/verif_repo_patched.lock')
         except OSError:
             pass
+    fcntl.flock(lockf, fcntl.LOCK_UN)
     meta['detection'] = det
     meta['detected_by'] = [c for c, v in det.items() if v['exit'] == 1]
     print('detection done:', json.dumps(det)[:600], flush=True)
